@@ -1,8 +1,409 @@
-(** Model of the zsets command family (stub: filled in by its own section of the build). *)
-From Ferrous Require Import Base.Bytes Model.Resp Model.Types.
+(** Model of the sorted-set commands: server.rs handle_zadd .. handle_zpopmax
+    (1846-2448) and engine.rs zadd .. zcard (756-1008), over Model/SkipList.v.
+
+    A stored sorted set is [VZSet z], z = the (member, score bits) pairs in
+    skip-list order.  Every engine function rebuilds the skip-list state from z
+    ([z2sl]: all towers of height 0, key_index = the pairs themselves), calls the
+    skip-list operation of Model/SkipList.v and stores the resulting level-0
+    chain.  This is exact as long as key_index and chain agree, i.e. as long as
+    no NaN score is stored - which, after the repairs beb3269 (NaN refused by
+    ZADD/ZINCRBY in handler and engine, all ZADD pairs validated first), 76804df
+    (rank-range normalisation) and 774140b (NaN bounds refused), is a theorem
+    about every history (Props/C04.v c04_history_inv).
+
+    Score text <-> f64 is an oracle: [oracle] = [FArray l], l aligned with
+    [parts]: l[i] = [FDouble bits] when parts[i] is a bulk string that
+    `String::from_utf8_lossy(..).parse::<f64>()` accepts, [FNullBulk] otherwise;
+    for ZINCRBY one more element: the bits of the new score the implementation
+    answered ([FNullBulk] when it answered an error).  Score replies are [FDouble (f_canon bits)] (the harness re-parses
+    the reply text to bits).  No proofs here. *)
+From Ferrous Require Import Base.Bytes Model.Resp Model.Types Model.Strings Model.SkipList.
 Open Scope Z_scope.
 
+Definition zset := list (bytes * Z).
+Definition z2sl (z : zset) : sl :=
+  {| sl_nodes := map (fun p => {| n_key := fst p; n_val := snd p; n_lvl := 0%nat |}) z;
+     sl_index := z; sl_length := len z; sl_level := 0%nat |}.
+Definition sl2z (s : sl) : zset := sl_items s.
+Definition is_none {A} (o : option A) : bool := match o with None => true | Some _ => false end.
+
+(** ---- engine.rs; no function here consults expiry ---- *)
+(** Result of the updating engine functions: Err(WrongType), another Err (answered "ERR ..."), Ok *)
+Inductive eres (A : Type) := EOk (a : A) | EWrongType | EErr.
+Arguments EOk {A} a.
+Arguments EWrongType {A}.
+Arguments EErr {A}.
+
+(** zadd: NaN is refused before the key is looked at *)
+Definition eng_zadd (d : db) (key m : bytes) (score : Z) : eres (bool * db) :=
+  if f_is_nan score then EErr else
+  match get_entry d key with
+  | Some e =>
+      match e_val e with
+      | VZSet z =>
+          match sl_insert (z2sl z) m score 0%nat with
+          | (old, s') => EOk (is_none old, put_entry d key {| e_val := VZSet (sl2z s'); e_exp := e_exp e |})
+          end
+      | _ => EWrongType
+      end
+  | None =>
+      match sl_insert sl_new m score 0%nat with
+      | (_, s') => EOk (true, put_entry d key {| e_val := VZSet (sl2z s'); e_exp := None |})
+      end
+  end.
+
+Definition eng_zrem (d : db) (key m : bytes) : option (bool * db) :=
+  match get_entry d key with
+  | Some e =>
+      match e_val e with
+      | VZSet z =>
+          match sl_remove (z2sl z) m with
+          | (r, s') =>
+              if is_none r then Some (false, d)
+              else if sl_is_empty s' then Some (true, del_entry d key)
+              else Some (true, put_entry d key {| e_val := VZSet (sl2z s'); e_exp := e_exp e |})
+          end
+      | _ => None
+      end
+  | None => Some (false, d)
+  end.
+
+Definition with_zset {A} (d : db) (key : bytes) (dflt : A) (f : sl -> A) : option A :=
+  match get_entry d key with
+  | Some e => match e_val e with VZSet z => Some (f (z2sl z)) | _ => None end
+  | None => Some dflt
+  end.
+
+Definition eng_zscore (d : db) (key m : bytes) : option (option Z) :=
+  with_zset d key None (fun s => sl_get_score s m).
+
+Definition eng_zrank (d : db) (key m : bytes) (reverse : bool) : option (option Z) :=
+  with_zset d key None (fun s =>
+    match sl_get_rank s m with
+    | Some r => Some (if reverse then sl_len s - 1 - r else r)
+    | None => None
+    end).
+
+Definition sat_sub (a b : Z) : Z := Z.max 0 (a - b).
+Definition nodes_kv (l : list node) : zset := map (fun n => (n_key n, n_val n)) l.
+
+(** zrange: start/stop are isize (engine.rs after 76804df): negative indices count from the
+    end, start is clamped to 0 and stop to len-1, empty when start > stop or start >= len *)
+Definition zrange_of (s : sl) (start stop : Z) (reverse : bool) : zset :=
+  let ln := sl_len s in
+  if ln =? 0 then [] else
+  let start_i := Z.max (if start <? 0 then ln + start else start) 0 in
+  let stop_i := if stop <? 0 then ln + stop else stop in
+  if (stop_i <? start_i) || (ln <=? start_i) then [] else
+  let stop_idx := Z.min stop_i (ln - 1) in
+  if reverse then rev (nodes_kv (sl_range_by_rank s (ln - 1 - stop_idx) (ln - 1 - start_i)))
+  else nodes_kv (sl_range_by_rank s start_i stop_idx).
+Definition eng_zrange (d : db) (key : bytes) (start stop : Z) (reverse : bool) : option zset :=
+  with_zset d key [] (fun s => zrange_of s start stop reverse).
+
+Definition eng_zrangebyscore (d : db) (key : bytes) (mn mx : Z) (reverse : bool) : option zset :=
+  with_zset d key [] (fun s =>
+    let items := nodes_kv (sl_range_by_score s mn mx) in
+    if reverse then rev items else items).
+Definition eng_zcount (d : db) (key : bytes) (mn mx : Z) : option Z :=
+  match eng_zrangebyscore d key mn mx false with Some l => Some (len l) | None => None end.
+Definition eng_zcard (d : db) (key : bytes) : option Z := with_zset d key 0 sl_len.
+
+(** zincrby: [sum] = the f64 sum `curr_score + increment` as the implementation computed it
+    (oracle; None when it reported none, i.e. answered an error), used only when the member
+    exists.  A NaN increment is refused before the key is looked at, a NaN sum after the type
+    check and before anything is changed. *)
+Definition eng_zincrby (d : db) (key m : bytes) (inc : Z) (sum : option Z) : eres (Z * db) :=
+  if f_is_nan inc then EErr else
+  match get_entry d key with
+  | Some e =>
+      match e_val e with
+      | VZSet z =>
+          let s := z2sl z in
+          let ns := match sl_get_score s m with Some _ => sum | None => Some inc end in
+          match ns with
+          | Some v =>
+              if f_is_nan v then EErr else
+              match sl_insert s m v 0%nat with
+              | (_, s') => EOk (v, put_entry d key {| e_val := VZSet (sl2z s'); e_exp := e_exp e |})
+              end
+          | None => EErr
+          end
+      | _ => EWrongType
+      end
+  | None =>
+      match sl_insert sl_new m inc 0%nat with
+      | (_, s') => EOk (inc, put_entry d key {| e_val := VZSet (sl2z s'); e_exp := None |})
+      end
+  end.
+
+(** ---- handlers ---- *)
+Definition oscore (oracle : option frame) (i : nat) : option Z :=
+  match oracle with
+  | Some (FArray l) => match nth_error l i with Some (FDouble b) => Some b | _ => None end
+  | _ => None
+  end.
+(** a score bound: parses and is not NaN (774140b) *)
+Definition bound_arg (parts : list frame) (oracle : option frame) (i : nat) : option Z :=
+  match nth_error parts i with
+  | Some (FBulk _) =>
+      match oscore oracle i with
+      | Some b => if f_is_nan b then None else Some b
+      | None => None
+      end
+  | _ => None
+  end.
+(** a float argument: None = "not a bulk string" or "not a valid float" (both ERR) *)
+Definition float_arg (parts : list frame) (oracle : option frame) (i : nat) : option Z :=
+  match nth_error parts i with
+  | Some (FBulk _) => oscore oracle i
+  | _ => None
+  end.
+Definition r_score (b : Z) : frame := FDouble (f_canon b).
+Definition r_members (with_scores : bool) (l : zset) : frame :=
+  if with_scores then FArray (flat_map (fun p => [FBulk (fst p); r_score (snd p)]) l)
+  else FArray (map (fun p => FBulk (fst p)) l).
+Definition with_scores_opt (parts : list frame) : bool :=
+  (nparts parts =? 5) &&
+  match nth_error parts 4 with
+  | Some (FBulk o) => beq (upper o) (bs "WITHSCORES")
+  | _ => false
+  end.
+
+(** the validation pass of handle_zadd (beb3269): every score parses and is not NaN,
+    every member is a bulk string - before the first pair is applied *)
+Fixpoint zadd_valid (parts : list frame) (oracle : option frame) (i : nat) (rest : list frame) : bool :=
+  match rest with
+  | sc :: mb :: rest' =>
+      match float_arg parts oracle i with
+      | None => false
+      | Some score =>
+          negb (f_is_nan score) &&
+          match mb with FBulk _ => zadd_valid parts oracle (S (S i)) rest' | _ => false end
+      end
+  | _ => true
+  end.
+(** the application loop: `if self.storage.zadd(..)? { new_members += 1 }` per pair *)
+Fixpoint zadd_pairs (d : db) (key : bytes) (parts : list frame) (oracle : option frame)
+         (i : nat) (rest : list frame) (added : Z) : frame * db :=
+  match rest with
+  | sc :: mb :: rest' =>
+      match float_arg parts oracle i, mb with
+      | Some score, FBulk m =>
+          match eng_zadd d key m score with
+          | EWrongType => (r_wrongtype, d)
+          | EErr => (r_err, d)
+          | EOk (is_new, d') => zadd_pairs d' key parts oracle (S (S i)) rest' (if is_new then added + 1 else added)
+          end
+      | _, _ => (r_err, d)          (* unreachable after validation *)
+      end
+  | _ => (r_int added, d)
+  end.
+Definition h_zadd (d : db) (parts : list frame) (oracle : option frame) : frame * db :=
+  if (nparts parts <? 4) || negb (nparts parts mod 2 =? 0) then (r_err, d) else
+  match nth_error parts 1 with
+  | Some (FBulk key) =>
+      if negb (zadd_valid parts oracle 2%nat (skipn 2 parts)) then (r_err, d)
+      else zadd_pairs d key parts oracle 2%nat (skipn 2 parts) 0
+  | _ => (r_err, d)
+  end.
+
+(** handle_zrem: non-bulk members are skipped *)
+Fixpoint zrem_members (d : db) (key : bytes) (ms : list frame) (removed : Z) : frame * db :=
+  match ms with
+  | [] => (r_int removed, d)
+  | FBulk m :: rest =>
+      match eng_zrem d key m with
+      | None => (r_wrongtype, d)
+      | Some (r, d') => zrem_members d' key rest (if r then removed + 1 else removed)
+      end
+  | _ :: rest => zrem_members d key rest removed
+  end.
+Definition h_zrem (d : db) (parts : list frame) : frame * db :=
+  if nparts parts <? 3 then (r_err, d) else
+  match nth_error parts 1 with
+  | Some (FBulk key) => zrem_members d key (skipn 2 parts) 0
+  | _ => (r_err, d)
+  end.
+
+Definition h_zscore (d : db) (parts : list frame) : frame * db :=
+  if negb (nparts parts =? 3) then (r_err, d) else
+  match nth_arg parts 1, nth_arg parts 2 with
+  | Some key, Some m =>
+      match eng_zscore d key m with
+      | None => (r_wrongtype, d)
+      | Some (Some sc) => (r_score sc, d)
+      | Some None => (r_nil, d)
+      end
+  | _, _ => (r_err, d)
+  end.
+
+Definition h_zcard (d : db) (parts : list frame) : frame * db :=
+  if negb (nparts parts =? 2) then (r_err, d) else
+  match nth_arg parts 1 with
+  | Some key => match eng_zcard d key with None => (r_wrongtype, d) | Some n => (r_int n, d) end
+  | None => (r_err, d)
+  end.
+
+Definition h_zrank (reverse : bool) (d : db) (parts : list frame) : frame * db :=
+  if negb (nparts parts =? 3) then (r_err, d) else
+  match nth_arg parts 1, nth_arg parts 2 with
+  | Some key, Some m =>
+      match eng_zrank d key m reverse with
+      | None => (r_wrongtype, d)
+      | Some (Some r) => (r_int r, d)
+      | Some None => (r_nil, d)
+      end
+  | _, _ => (r_err, d)
+  end.
+
+Definition h_zrange (reverse : bool) (d : db) (parts : list frame) : frame * db :=
+  if (nparts parts <? 4) || (5 <? nparts parts) then (r_err, d) else
+  match nth_arg parts 1 with
+  | None => (r_err, d)
+  | Some key =>
+      match nth_arg parts 2 with
+      | None => (r_err, d)
+      | Some a =>
+          match parse_isize a with
+          | None => (r_err, d)
+          | Some start =>
+              match nth_arg parts 3 with
+              | None => (r_err, d)
+              | Some b =>
+                  match parse_isize b with
+                  | None => (r_err, d)
+                  | Some stop =>
+                      match eng_zrange d key start stop reverse with
+                      | None => (r_wrongtype, d)
+                      | Some l => (r_members (with_scores_opt parts) l, d)
+                      end
+                  end
+              end
+          end
+      end
+  end.
+
+(** ZRANGEBYSCORE key min max / ZREVRANGEBYSCORE key max min *)
+Definition h_zrangebyscore (reverse : bool) (d : db) (parts : list frame) (oracle : option frame) : frame * db :=
+  if (nparts parts <? 4) || (5 <? nparts parts) then (r_err, d) else
+  match nth_arg parts 1 with
+  | None => (r_err, d)
+  | Some key =>
+      match bound_arg parts oracle 2 with
+      | None => (r_err, d)
+      | Some a =>
+          match bound_arg parts oracle 3 with
+          | None => (r_err, d)
+          | Some b =>
+              let mn := if reverse then b else a in
+              let mx := if reverse then a else b in
+              match eng_zrangebyscore d key mn mx reverse with
+              | None => (r_wrongtype, d)
+              | Some l => (r_members (with_scores_opt parts) l, d)
+              end
+          end
+      end
+  end.
+
+Definition h_zcount (d : db) (parts : list frame) (oracle : option frame) : frame * db :=
+  if negb (nparts parts =? 4) then (r_err, d) else
+  match nth_arg parts 1 with
+  | None => (r_err, d)
+  | Some key =>
+      match bound_arg parts oracle 2 with
+      | None => (r_err, d)
+      | Some mn =>
+          match bound_arg parts oracle 3 with
+          | None => (r_err, d)
+          | Some mx =>
+              match eng_zcount d key mn mx with
+              | None => (r_wrongtype, d)
+              | Some n => (r_int n, d)
+              end
+          end
+      end
+  end.
+
+Definition h_zincrby (d : db) (parts : list frame) (oracle : option frame) : frame * db :=
+  if negb (nparts parts =? 4) then (r_err, d) else
+  match nth_arg parts 1 with
+  | None => (r_err, d)
+  | Some key =>
+      match float_arg parts oracle 2 with
+      | None => (r_err, d)
+      | Some inc =>
+          match nth_arg parts 3 with
+          | None => (r_err, d)
+          | Some m =>
+              match eng_zincrby d key m inc (oscore oracle 4) with
+              | EWrongType => (r_wrongtype, d)
+              | EErr => (r_err, d)
+              | EOk (v, d') => (r_score v, d')
+              end
+          end
+      end
+  end.
+
+(** the pop loop: `for _ in 0..count { zrange(idx, idx); zrem(first) }` *)
+Fixpoint zpop_loop (fuel : nat) (d : db) (key : bytes) (idx : Z) (acc : list frame)
+  : option (list frame * db) :=
+  match fuel with
+  | O => Some (acc, d)
+  | S f =>
+      match eng_zrange d key idx idx false with
+      | None => None
+      | Some [] => Some (acc, d)
+      | Some ((m, sc) :: _) =>
+          match eng_zrem d key m with
+          | None => None
+          | Some (true, d') => zpop_loop f d' key idx (acc ++ [FBulk m; r_score sc])
+          | Some (false, d') => zpop_loop f d' key idx acc
+          end
+      end
+  end.
+Definition zcard_or0 (d : db) (key : bytes) : Z :=
+  match eng_zcard d key with Some n => n | None => 0 end.
+Definition h_zpop (idx : Z) (d : db) (parts : list frame) : frame * db :=
+  if (nparts parts <? 2) || (3 <? nparts parts) then (r_err, d) else
+  match nth_arg parts 1 with
+  | None => (r_err, d)
+  | Some key =>
+      let count :=
+        if nparts parts =? 3 then
+          match nth_arg parts 2 with
+          | Some c => parse_usize c
+          | None => None
+          end
+        else Some 1 in
+      match count with
+      | None => (r_err, d)
+      | Some n =>
+          (* each iteration removes one member or stops: card + 1 iterations suffice *)
+          match zpop_loop (Z.to_nat (Z.min n (zcard_or0 d key + 1))) d key idx [] with
+          | None => (r_wrongtype, d)
+          | Some ([], d') => (FNullArray, d')
+          | Some (l, d') => (FArray l, d')
+          end
+      end
+  end.
+
 (** dispatch of this family; None = not a command of this family.
-    [oracle] = the implementation's reply for commands with random outcomes. *)
+    [oracle] = score-parse table (see above). *)
 Definition exec_zsets (now : Z) (d : db) (name : bytes) (parts : list frame) (oracle : option frame)
-  : option (frame * db) := None.
+  : option (frame * db) :=
+  if beq name (bs "ZADD") then Some (h_zadd d parts oracle)
+  else if beq name (bs "ZREM") then Some (h_zrem d parts)
+  else if beq name (bs "ZSCORE") then Some (h_zscore d parts)
+  else if beq name (bs "ZCARD") then Some (h_zcard d parts)
+  else if beq name (bs "ZRANK") then Some (h_zrank false d parts)
+  else if beq name (bs "ZREVRANK") then Some (h_zrank true d parts)
+  else if beq name (bs "ZRANGE") then Some (h_zrange false d parts)
+  else if beq name (bs "ZREVRANGE") then Some (h_zrange true d parts)
+  else if beq name (bs "ZRANGEBYSCORE") then Some (h_zrangebyscore false d parts oracle)
+  else if beq name (bs "ZREVRANGEBYSCORE") then Some (h_zrangebyscore true d parts oracle)
+  else if beq name (bs "ZCOUNT") then Some (h_zcount d parts oracle)
+  else if beq name (bs "ZINCRBY") then Some (h_zincrby d parts oracle)
+  else if beq name (bs "ZPOPMIN") then Some (h_zpop 0 d parts)
+  else if beq name (bs "ZPOPMAX") then Some (h_zpop (-1) d parts)
+  else None.
